@@ -23,13 +23,21 @@ ANCHORS = ['pymodbus/transaction.py', 'pymodbus/client/sync.py']
 
 
 class LatencyPeer(P.ScriptedPeer):
-    """conformant server whose replies have different lengths and arrive in one or two pieces with different latencies"""
+    """conformant server whose replies have different lengths and arrive in one or two pieces with different latencies;
+    with foreign_first=True the first attempt of some requests is answered by a frame of another unit (provokes a retry)"""
+    foreign_first = False
 
     def answer(self, conn, f):
         own = self.own_reply(f)
         self.i += 1
         self.events.append((self.i - 1, 'own', f.key(), own))
         a = f.msg.get('address', 0)
+        if self.foreign_first and a % 2 == 0:
+            seen = self.__dict__.setdefault('seen', set())
+            if a not in seen:
+                seen.add(a)
+                conn.deliver(ADU.build(self.framing, (f.unit or 0) ^ 0x40, own[7:] if self.framing == 'tcp' else own[1:-2], tid=f.tid or 0))
+                return
         if a % 3 == 0:
             conn.deliver(own)
         elif a % 3 == 1:
@@ -44,15 +52,18 @@ def expected_registers(addr, count):
     return [t[addr + k] for k in range(count)]
 
 
-def one_schedule(kind, nthreads, ntx, chooser, preconnect, wrap_lock=True):
+def one_schedule(kind, nthreads, ntx, chooser, preconnect, wrap_lock=True, variant='plain'):
+    """variant: plain | units (every thread talks to its own unit id) | retry (retry options on, some first replies come from a foreign unit)"""
     framing = IO.framing_of(kind)
     sched = Sched(chooser)
     peer = LatencyPeer(framing, timeout=1.0)
+    peer.foreign_first = (variant == 'retry')
     env = IO.Env(peer, sched=sched)
     env.op_limit = 50000
     results = {}
     with IO.installed(env):
-        client = IO.make_client(kind, timeout=1.0)
+        kw = dict(retries=2, retry_on_empty=True, retry_on_invalid=True) if variant == 'retry' else {}
+        client = IO.make_client(kind, timeout=1.0, **kw)
         if preconnect:
             client.connect()
         lock_present = hasattr(client.transaction, '_transaction_lock')
@@ -67,7 +78,7 @@ def one_schedule(kind, nthreads, ntx, chooser, preconnect, wrap_lock=True):
                     addr, cnt = 1000 + i * 100 + j, 1 + (i + j) % 3
                     env.trace.append((name, 'call', addr, round(env.clock.now, 6)))
                     try:
-                        r = client.read_holding_registers(addr, cnt, unit=1)
+                        r = client.read_holding_registers(addr, cnt, unit=(1 + i * 7 if variant == 'units' else 1))
                         results[(i, j)] = (addr, cnt, getattr(r, 'registers', None), repr(r)[:80])
                     except IO.StepWatchdog:
                         results[(i, j)] = (addr, cnt, None, 'STEP-WATCHDOG')
@@ -75,12 +86,12 @@ def one_schedule(kind, nthreads, ntx, chooser, preconnect, wrap_lock=True):
                         results[(i, j)] = (addr, cnt, None, 'RAISED %r' % (e,))
                     env.trace.append((name, 'return', addr, round(env.clock.now, 6)))
             sched.spawn('T%d' % i, work)
-        status = sched.run()
-    return {'status': status, 'results': results, 'trace': list(env.trace), 'choices': list(sched.choices), 'conns': env.conns,
+        status = sched.run(quiet=0.2)
+    return {'status': status, 'unknown_lock_blocks': getattr(sched, 'unknown_lock_blocks', 0), 'results': results, 'trace': list(env.trace), 'choices': list(sched.choices), 'conns': env.conns,
             'framing': framing, 'lock_acquisitions': wrapper.acquisitions if wrapper else None, 'lock_present': lock_present}
 
 
-def judge(out, nthreads, ntx):
+def judge(out, nthreads, ntx, variant='plain'):
     """-> {kind: text} of property violations in one execution"""
     kinds = {}
     st = out['status']
@@ -102,7 +113,7 @@ def judge(out, nthreads, ntx):
             if err is not None or pos != len(data) or len(frames) != 1:
                 kinds.setdefault('frame-not-whole', 'a write to the transport is not exactly one request frame: %s' % data.hex())
             nframes += len(frames)
-    if st == 'OK' and nframes != nthreads * ntx and 'wrong-or-lost-reply' not in kinds:
+    if st == 'OK' and (nframes != nthreads * ntx if variant != 'retry' else not nthreads * ntx <= nframes <= 3 * nthreads * ntx) and 'wrong-or-lost-reply' not in kinds:
         kinds['frame-count'] = '%d request frames written for %d transactions' % (nframes, nthreads * ntx)
     # (2) mutual exclusion of the send..return window
     owner = None
@@ -126,16 +137,24 @@ def schedule_hash(out):
     return h64(tuple((th, op) for th, op, d, vt in out['trace'] if op not in ('call', 'return')))
 
 
-def explore_config(run, kind, nthreads, ntx, preconnect, limit, sample, r):
+def explore_config(run, kind, nthreads, ntx, preconnect, limit, sample, r, variant='plain'):
     region = None if preconnect else 'first-connect-race'
 
     def run_one(chooser):
-        out = one_schedule(kind, nthreads, ntx, chooser, preconnect)
+        out = one_schedule(kind, nthreads, ntx, chooser, preconnect, variant=variant)
         return out['choices'], out
+    unknown = 0
     for prefix, choices, out in explore(run_one, limit, r, sample):
+        unknown += out.get('unknown_lock_blocks', 0)
+        if unknown > 12:
+            # threads keep blocking on a lock the scheduler does not control: exploring on costs wall time per block
+            run.count('configs_cut_short_by_unknown_lock')
+            run.observed.setdefault('unknown_lock_note', 'threads blocked on a lock other than _transaction_lock in %s %dx%d %s' % (kind, nthreads, ntx, variant))
+            break
         run.count('schedules:%s' % kind)
         run.count('transport_ops', len(out['trace']))
-        case = {'client': kind, 'threads': nthreads, 'transactions': ntx, 'preconnect': preconnect, 'choices': [c for c, _ in choices]}
+        case = {'client': kind, 'threads': nthreads, 'transactions': ntx, 'preconnect': preconnect, 'variant': variant, 'choices': [c for c, _ in choices]}
+        run.count('variant:%s' % variant)
         if region:
             run.region(region)
         else:
@@ -144,13 +163,13 @@ def explore_config(run, kind, nthreads, ntx, preconnect, limit, sample, r):
             run.watchdogs += 1
         if out['lock_present'] and out['lock_acquisitions'] == 0 and out['status'] == 'OK':
             run.count('lock_wrapper_never_entered')
-        kinds = judge(out, nthreads, ntx)
+        kinds = judge(out, nthreads, ntx, variant)
         h = schedule_hash(out)
-        run.case(h, True, sample={'client': kind, 'threads': nthreads, 'transactions_each': ntx, 'preconnected': preconnect,
+        run.case(h64((h, variant)), True, sample={'client': kind, 'threads': nthreads, 'transactions_each': ntx, 'preconnected': preconnect, 'variant': variant,
                                   'schedule': [c for c, _ in choices][:40],
                                   'trace_head': [(th, op) for th, op, d, vt in out['trace'] if op not in ('call', 'return')][:14],
                                   'verdict': 'serialised' if not kinds else sorted(kinds)},
-                 sample_class=(kind, nthreads, ntx, preconnect, bool(kinds)))
+                 sample_class=(kind, nthreads, ntx, preconnect, variant, bool(kinds)))
         if not kinds:
             continue
         if region and set(kinds) <= {'wrong-or-lost-reply', 'frame-count', 'overlap', 'missing-result'}:
@@ -176,11 +195,18 @@ def run(run):
         plan = [('tcp', 2, 2, True, 5000, 0), ('tcp', 3, 1, True, 5000, 0), ('tcp', 2, 3, True, 20000, 0), ('tcp', 3, 2, True, 30000, 2000),
                 ('rtu', 2, 2, True, 5000, 500), ('rtu', 3, 1, True, 5000, 0), ('tcp', 4, 1, True, 10000, 1000), ('tcp', 4, 3, True, 0, 4000),
                 ('rtu', 4, 2, True, 0, 2000), ('tcp', 2, 1, False, 2000, 0), ('tcp', 2, 2, False, 3000, 500), ('rtu', 2, 1, False, 1000, 200)]
-    for idx, (kind, nt, ntx, pre, limit, sample) in enumerate(plan):
+    plan = [p + ('plain',) for p in plan]
+    if run.thorough:
+        plan = [('tcp', 2, 2, True, 3000, 500, 'units'), ('tcp', 3, 1, True, 3000, 0, 'units'), ('rtu', 2, 2, True, 1000, 500, 'units'),
+                 ('tcp', 2, 2, True, 3000, 1000, 'retry'), ('tcp', 3, 1, True, 2000, 500, 'retry'), ('rtu', 2, 1, True, 1500, 300, 'retry')] + plan
+    else:
+        plan = [('tcp', 2, 2, True, 150, 50, 'units'), ('tcp', 3, 1, True, 100, 0, 'units'), ('rtu', 2, 1, True, 80, 0, 'units'),
+                 ('tcp', 2, 2, True, 150, 80, 'retry'), ('tcp', 3, 1, True, 100, 50, 'retry'), ('rtu', 2, 1, True, 80, 30, 'retry')] + plan
+    for idx, (kind, nt, ntx, pre, limit, sample, variant) in enumerate(plan):
         if not run.mine(idx):
             continue
-        done = explore_config(run, kind, nt, ntx, pre, limit, sample, r)
-        complete['%s %dx%d %s' % (kind, nt, ntx, 'connected' if pre else 'unconnected')] = bool(done)
+        done = explore_config(run, kind, nt, ntx, pre, limit, sample, r, variant)
+        complete['%s %dx%d %s %s' % (kind, nt, ntx, 'connected' if pre else 'unconnected', variant)] = bool(done)
     run.observed['exhaustively_enumerated'] = complete
     if run.thorough and run.shard in (None, 0):
         free_running(run, r)
@@ -241,8 +267,8 @@ def replay(run, case):
 
     def chooser(step, ncand):
         return ch[step] if step < len(ch) else 0
-    out = one_schedule(case['client'], case['threads'], case['transactions'], chooser, case['preconnect'])
-    kinds = judge(out, case['threads'], case['transactions'])
+    out = one_schedule(case['client'], case['threads'], case['transactions'], chooser, case['preconnect'], variant=case.get('variant', 'plain'))
+    kinds = judge(out, case['threads'], case['transactions'], case.get('variant', 'plain'))
     for th, op, d, vt in out['trace']:
         print(' ', th, op, d, vt)
     print('status', out['status'], 'violations', kinds)
